@@ -19,9 +19,9 @@ from pdl import Prog, fn, sort_json
 
 SCALARS = [None, False, True, 0, 1, 2, 5, "", "x", "y", "z"]
 DISPATCH_VALUES = ["x", "y", "z", 1, True, None, 0]
-SCALAR_KEYS = ["A", "B", "C", "D"]
+SCALAR_KEYS = ["A", "B", "C", "D", "AB"]   # "AB": a key that has another key as string prefix
 DISPATCH_KEYS = ["K", "M"]
-SECTION_KEYS = ["S.X", "S.Y", "S.U.V", "T.X", "T.Z"]
+SECTION_KEYS = ["S.X", "S.Y", "S.U.V", "T.X", "T.Z", "S.XY"]
 LIST_KEYS = ["L.0", "L.1"]
 TEMPLATE_KEYS = ["P", "Q", "R"]
 # keys whose values are never templated by the generators: an Option on one of them fails only when absent
@@ -141,6 +141,10 @@ class G:
         if r < 0.25:
             self.count("value")
             return P.value(self.pick(SCALARS))
+        if ty == "any" and self.cfg.sections and r < 0.33:
+            # an Option that reads a whole section (merged key by key under wrappers) or a nested container
+            self.count("option")
+            return P.option(self.pick(["S", "T", "S.U", "N"]), dflt=P.value({}) if self.chance(0.3) else None)
         return self.option(ty, 0)
 
     def plain_leaf(self) -> int:
@@ -177,7 +181,9 @@ class G:
         dom = None
         if self.cfg.domains and self.chance(0.12):
             c = self.rng.random()
-            if c < 0.5:
+            if self.cfg.raising and c < 0.25:
+                dom = P.fnvalue(self.fresh_fn("dom"))
+            elif c < 0.5:
                 dom = P.value([x for x in SCALARS if self.chance(0.7)])
             elif c < 0.8:
                 dom = P.fnvalue(self.pick(["truthy", "not"])) if self.chance(0.5) else P.fnvalue("ne", self.pick(SCALARS))
@@ -348,8 +354,9 @@ class G:
             steps = []
             for _ in range(self.rng.randint(1, 3)):
                 if self.chance(0.5):
+                    arg = self.dataset(0) if (cfg.datasets and self.chance(0.3)) else self.expr("scalar", min(d, 1))
                     steps.append(P.step(P.partial(P.fnvalue(self.pick(["pair", "eq"] if cfg.total_fns else ["add", "pair", "eq"])),
-                                                  kw=[], args=[self.expr("scalar", min(d, 1))])))
+                                                  kw=[], args=[arg])))
                     self.count("partial")
                 else:
                     steps.append(P.step(self.fn_node()))
@@ -448,10 +455,14 @@ def base_options(rng: random.Random, cfg: Cfg) -> Dict[str, Any]:
     o: Dict[str, Any] = {}
     for k in SCALAR_KEYS:
         o[k] = rng.choice(SCALARS)
+    if rng.random() < 0.3:
+        del o["AB"]
     for k in DISPATCH_KEYS:
         o[k] = rng.choice(DISPATCH_VALUES)
     if cfg.sections:
         o["S"] = {"X": rng.choice(SCALARS), "Y": rng.choice(SCALARS), "U": {"V": rng.choice(SCALARS)}}
+        if rng.random() < 0.6:
+            o["S"]["XY"] = rng.choice(SCALARS)
         o["T"] = {"X": rng.choice(SCALARS), "Z": rng.choice(SCALARS)}
     if cfg.lists:
         o["L"] = [rng.choice(SCALARS) for _ in range(rng.randint(1, 3))]
@@ -460,6 +471,8 @@ def base_options(rng: random.Random, cfg: Cfg) -> Dict[str, Any]:
         o["Q"] = rng.choice(["p{A}q{S.X}", "{A}-{B}", "q"])
         o["R"] = rng.choice(["{P}", "r{P}", "{Q}"])
     o["ALLOWED"] = [x for x in SCALARS if rng.random() < 0.8]
+    if cfg.templates and cfg.containers_with_templates and rng.random() < 0.5:
+        o["N"] = rng.choice([[{"p": "{B}"}, 2], {"k": [{"q": "{A}"}], "m": "{B}"}, [1, [2]]])
     return o
 
 
@@ -489,7 +502,14 @@ def perturb(rng: random.Random, cfg: Cfg, o: Dict[str, Any]) -> Dict[str, Any]:
             k = rng.choice(["A", "B"])
             o[k] = rng.choice(["{B}", "t{C}", "\\{x\\}", "{D}{C}"] if k == "A" else ["{C}", "t{C}", "\\{x\\}"])
         elif r < 0.84 and cfg.templates and cfg.containers_with_templates:
-            o[rng.choice(["L", "S"])] = rng.choice([["{A}", 1], {"X": "{B}", "Y": 2}]) if rng.random() < 0.5 else o.get("L", [1])
+            c = rng.random()
+            if c < 0.3:
+                o["L"] = rng.choice([["{A}", 1], ["{C}", 0, "{B}"]])
+            elif c < 0.6:
+                o["S"] = rng.choice([{"X": "{B}", "Y": 2}, {"X": 1, "Y": 0, "U": {"V": "{C}"}}])
+            else:
+                # nested containers holding templates; `N` is only ever read whole (never embedded in a template)
+                o["N"] = rng.choice([[{"p": "{B}"}, 2], [["{C}"], 0], {"k": [{"q": "{A}"}], "m": "{B}"}, {"k": {"j": ["{C}"]}}])
         elif r < 0.88 and cfg.scalar_prefix:
             o[rng.choice(["S", "T", "L"])] = rng.choice([5, None, "str"])
         elif r < 0.92 and cfg.switches:
